@@ -626,9 +626,15 @@ func (m *Mint) RequestMeltQuote(meltQuoteRequest nut05.PostMeltQuoteBolt11Reques
 	quoteAmount := invoiceSatAmount
 
 	// check if a mint quote exists with the same invoice.
-	_, err = m.db.GetMintQuoteByPaymentHash(bolt11.PaymentHash)
+	mintQuote, err := m.db.GetMintQuoteByPaymentHash(bolt11.PaymentHash)
 	isInternal := false
 	if err == nil {
+		// the quotes are matched by payment hash only: an invoice for another amount
+		// is not the one issued for that mint quote and cannot settle it
+		if uint64(bolt11.MSatoshi) != mintQuote.Amount*1000 {
+			return storage.MeltQuote{},
+				cashu.BuildCashuError("invoice amount does not match the mint quote with the same payment hash", cashu.MeltQuoteErrCode)
+		}
 		isInternal = true
 	}
 
